@@ -53,10 +53,20 @@ def _lift(x, den):
     return fr
 
 
-def _sample(counts):
+# the categories of "any discrete distribution" are arbitrary labels: besides the integers 0..K-1 the same identities are
+# decided with string categories that are PREFIXES of one another and of different widths (NumPy's fixed-width string
+# dtypes truncate silently), in both width orders, and with the empty string among the categories
+LABELS = {"int": None,
+          "prefix": ["CAS", "CASS", "CASSL", "CASSLG", "CASSLGQ"],
+          "prefix-rev": ["CASSLGQ", "CASSLG", "CASSL", "CASS", "CAS"],
+          "mixed": ["CA", "", "CASS", "C", "CAS"]}
+
+
+def _sample(counts, labels="int"):
+    names = LABELS[labels]
     out = []
     for label, c in enumerate(counts):
-        out += [label] * c
+        out += [label if names is None else names[label]] * c
     return out
 
 
@@ -73,7 +83,7 @@ def _rv(z3, fr):
     return z3.RealVal(fr.numerator) / z3.RealVal(fr.denominator) if fr.denominator != 1 else z3.RealVal(fr.numerator)
 
 
-def _body_pc(K, N, which, biased=False):
+def _body_pc(K, N, which, biased=False, labels="int"):
     def body(E):
         import z3
         from pyrepseq import stats
@@ -87,7 +97,7 @@ def _body_pc(K, N, which, biased=False):
             if which == "pc_n":
                 val = _exact(stats.pc_n, n)
             elif which == "pc":
-                val = _lift(stats.pc(_sample(n)), N * (N - 1))
+                val = _lift(stats.pc(_sample(n, labels)), N * (N - 1))
             else:
                 val = _exact(stats.pc_n, n)
             if biased:
@@ -116,7 +126,7 @@ def _body_pc(K, N, which, biased=False):
     return body
 
 
-def _body_pc2(K, N1, N2, biased=False):
+def _body_pc2(K, N1, N2, biased=False, labels="int"):
     def body(E):
         import z3
         from pyrepseq import stats
@@ -127,7 +137,7 @@ def _body_pc2(K, N1, N2, biased=False):
         lhs = z3.RealVal(0)
         for n in compositions(N1, K):
             for m in compositions(N2, K):
-                val = _lift(stats.pc(_sample(n), _sample(m)), N1 * N2)
+                val = _lift(stats.pc(_sample(n, labels), _sample(m, labels)), N1 * N2)
                 if biased:
                     val = val + Fraction(1, N1 * N2)
                 lhs = lhs + _rv(z3, multinom(n) * multinom(m) * val) * _poly(z3, ps, n) * _poly(z3, qs, m)
@@ -144,7 +154,7 @@ def _body_pc2(K, N1, N2, biased=False):
     return body
 
 
-def _replay_identity(K, N, which):
+def _replay_identity(K, N, which, labels="int"):
     """A counterexample is a probability-like vector p for which the identity fails: re-evaluate both sides exactly."""
     def replay(inputs):
         from vlib.smt import from_model
@@ -156,7 +166,7 @@ def _replay_identity(K, N, which):
             mono = Fraction(1)
             for p, e in zip(ps, n):
                 mono *= p ** e
-            val = _lift(stats.pc(_sample(n)), N * (N - 1)) if which == "pc" else _exact(stats.pc_n, n)
+            val = _lift(stats.pc(_sample(n, labels)), N * (N - 1)) if which == "pc" else _exact(stats.pc_n, n)
             w = multinom(n)
             lhs += w * val * mono
             if which == "varpc_n":
@@ -170,7 +180,7 @@ def _replay_identity(K, N, which):
     return replay
 
 
-def _replay_pc2(K, N1, N2):
+def _replay_pc2(K, N1, N2, labels="int"):
     def replay(inputs):
         from vlib.smt import from_model
         from pyrepseq import stats
@@ -184,7 +194,7 @@ def _replay_pc2(K, N1, N2):
                     mono *= p ** e
                 for q, e in zip(qs, m):
                     mono *= q ** e
-                lhs += multinom(n) * multinom(m) * _lift(stats.pc(_sample(n), _sample(m)), N1 * N2) * mono
+                lhs += multinom(n) * multinom(m) * _lift(stats.pc(_sample(n, labels), _sample(m, labels)), N1 * N2) * mono
         rhs = sum(p * q for p, q in zip(ps, qs)) * sum(ps) ** (N1 - 1) * sum(qs) ** (N2 - 1)
         return lhs == rhs, f"K={K} N1={N1} N2={N2} p={ps} q={qs}: E[pc(a,b)]={lhs}, sum p_i q_i (...)={rhs}"
     return replay
@@ -287,6 +297,16 @@ def conditions(tier):
                     continue
                 out.append(Condition(f"C06/E[pc2]/K={K}/N1={N1}/N2={N2}", _body_pc2(K, N1, N2), _replay_pc2(K, N1, N2), budget=900,
                                      engine="SMT", info=info, bounds=f"all real p, q on {K} categories, {N1} x {N2} draws"))
+    lab_cfgs = [("prefix", 2, 1, 1), ("prefix", 2, 2, 2), ("prefix", 3, 2, 1), ("prefix-rev", 3, 1, 2), ("prefix-rev", 2, 2, 2), ("mixed", 3, 2, 2)]
+    if tier != "quick":
+        lab_cfgs += [(lab, K, a, b) for lab in ("prefix", "prefix-rev", "mixed") for K in (3, 4) for a in (2, 3) for b in (2, 3)]
+    for lab, K, N1, N2 in lab_cfgs:
+        out.append(Condition(f"C06/E[pc2]/labels={lab}/K={K}/N1={N1}/N2={N2}", _body_pc2(K, N1, N2, labels=lab), _replay_pc2(K, N1, N2, lab),
+                             budget=900, engine="SMT", info=info,
+                             bounds=f"all real p, q on {K} categories labelled {LABELS[lab][:K]}, {N1} x {N2} draws"))
+    for lab, K, N in [("prefix", 3, 3), ("prefix-rev", 2, 4), ("mixed", 3, 3)] + ([("mixed", 4, 5), ("prefix", 5, 5)] if tier != "quick" else []):
+        out.append(Condition(f"C06/E[pc]/labels={lab}/K={K}/N={N}", _body_pc(K, N, "pc", labels=lab), _replay_identity(K, N, "pc", lab),
+                             budget=600, engine="SMT", info=info, bounds=f"all real p on {K} categories labelled {LABELS[lab][:K]}, {N} draws"))
     out.append(Condition("C06/control-biased-pc2/K=2/N1=2/N2=2", _body_pc2(2, 2, 2, biased=True), _replay_true(), budget=300,
                          engine="SMT", info=info, bounds="vacuity control"))
     for K in range(1, 5):
